@@ -610,6 +610,23 @@ func plDropScenarios(thorough bool) ([]*plScenario, map[string]map[string]bool) 
 			Drivers: []plDriver{{Kind: "start", Coll: 0}, {Kind: "addpart", Coll: 0, Part: "p1", PartState: pb.PartitionState_PartitionDropped}}})
 		synth["drop:restart-partition"] = map[string]bool{"part/default/c1/p1": true}
 	}
+	// restart from a checkpoint that lies before the drop message of a collection already dropped upstream:
+	// every shard sees a synthetic drop AND re-reads the real one; still exactly one request, after all shards
+	{
+		c := mkColl(101, "c1", []string{"src-dml_0", "src-dml_1"}, []string{"tgt-dml_0", "tgt-dml_1"})
+		c.Dropped, c.SeekMs = true, 990
+		c.Shards[0].Script = []plPack{pkIns(1000), pkDropColl(1050)}
+		c.Shards[1].Script = []plPack{pkDropColl(1050)}
+		out = append(out, &plScenario{Name: "drop:restart-replayed-drop", SrcN: 2, TgtN: 2, Colls: []*plColl{c}, Drivers: []plDriver{{Kind: "start", Coll: 0}}, HeavyBound: 1})
+		synth["drop:restart-replayed-drop"] = map[string]bool{"coll/default/c1": true}
+	}
+	// the same collection is announced a second time (list + watch both report it): no second replication, no second drop
+	{
+		sc := plShardedScenario("drop:announced-twice", 2, func(i int) []plPack { return []plPack{pkIns(int64(1000 + i)), pkDropColl(1050)} })
+		sc.Drivers = append(sc.Drivers, plDriver{Kind: "start", Coll: 0})
+		sc.HeavyBound = 1
+		out = append(out, sc)
+	}
 	return out, synth
 }
 
@@ -633,7 +650,9 @@ func TestVerifC04Drop(t *testing.T) {
 	var wrapped []*sched.Scenario
 	for _, sc := range scs {
 		props := "14"
-		if strings.Contains(sc.Name, "stop") || strings.Contains(sc.Name, "restart") {
+		if sc.Name == "drop:announced-twice" {
+			props = "14"
+		} else if strings.Contains(sc.Name, "stop") || strings.Contains(sc.Name, "restart") {
 			props = "4" // a stopped stream is cut short by design; a synthetic drop message was never read from the source
 		}
 		wrapped = append(wrapped, plWrap(sc, plCheck{props: props, synthetic: synth[sc.Name]}))
